@@ -11,8 +11,8 @@
   shared names, comparison filters, `Aggregate`) evaluated by `IR.eval` (what the code generator's
   `reduce` computes).  Both are tied to the Rust code on every run (`c06.build`, `c06.run`).
 
-  `C06_statement` (plan answer = Spec answer for every rule of the fragment) is refuted only by `sum` over values
-  whose partial sums leave the i64 range (saturation per step).  `C06_partial` is the strongest part proved for *all* plans of the builder's shape:
+  `C06_statement` (plan answer = Spec answer for every rule of the fragment) has no known counterexample any more
+  (head order, push-down, SIP wildcard columns and per-step saturation of `sum` are repaired).  `C06_partial` is the strongest part proved for *all* plans of the builder's shape:
   the join tree below the `Aggregate` has duplicate-free rows over set-valued relations (each
   satisfying valuation appears exactly once), and the `Aggregate` node returns exactly one row per
   distinct group key with exact count / sum / min / max / count_distinct over those rows.
@@ -29,18 +29,12 @@ def C06_statement : Prop :=
     AggSpec.dbIsSet db = true → IRBuild.buildRule r = some t → AggSpec.specAnswer db r = some want →
     SetEq (answer db t) want
 
-def rBad : DL.Rule := { hrel := "a", hargs := [.agg .sum "Z"], body := [.pos { rel := "e", args := [.var "X", .var "Z"] }] }
-def dbBad : Db :=
-  [("e", [[.i64 0, .i64 (-(2^63))], [.i64 1, .i64 (-(2^63))], [.i64 2, .i64 (2^63 - 1)], [.i64 3, .i64 (2^63 - 1)]])]
-
-/-- `a(sum<Z>) <- e(X,Z)` over `Z = MIN, MIN, MAX, MAX`: the exact total is `-2`, the saturating fold in
-    tuple order loses one `MIN` and yields `MAX - 1` (known finding `sum_partial_saturation`). -/
-theorem C06_refuted : ¬ C06_statement := by
-  intro h
-  have := h dbBad rBad (.aggregate (.scan "e" ["X", "Z"]) [] [(.sum, 1)] ["sum_Z"]) [[.i64 (-2)]]
-    (by decide) (by decide) (by decide) [.i64 (-2)]
-  revert this
-  decide
+/-- the input that refuted the statement before the repair of `sum` (`a(sum<Z>) <- e(X,Z)` over
+    `Z = MIN, MIN, MAX, MAX`): the plan now answers the exact total `-2`, as the Spec. -/
+example :
+    let r : DL.Rule := { hrel := "a", hargs := [.agg .sum "Z"], body := [.pos { rel := "e", args := [.var "X", .var "Z"] }] }
+    let db : Db := [("e", [[.i64 0, .i64 (-(2^63))], [.i64 1, .i64 (-(2^63))], [.i64 2, .i64 (2^63 - 1)], [.i64 3, .i64 (2^63 - 1)]])]
+    (IRBuild.buildRule r).map (answer db) = some [[.i64 (-2)]] ∧ AggSpec.specAnswer db r = some [[.i64 (-2)]] := by decide
 
 /-- the head order is restored by the `Map` that `build_aggregation` now appends: for
     `a(count<Z>, X) <- e(X,Z)` (the input that failed before the repair) plan answer = Spec answer. -/
@@ -59,7 +53,7 @@ def ValuesWF (rows : List Tuple) : Prop := ∀ t ∈ rows, ∀ v ∈ t, ILV.Prop
     1. the rows of `J` are pairwise distinct (one per satisfying valuation);
     2. the output has exactly one row per distinct group key, namely `key ++ aggregate values`;
     3. `count` is the number of (distinct) rows of the group, `count_distinct` the number of distinct
-       values, `sum` the exact integer sum when the absolute values fit in i64, `min`/`max` an element of
+       values, `sum` the exact integer sum clamped once to the i64 range, `min`/`max` an element of
        the group's column that is ≤ / ≥ all others in `Ord for Value`. -/
 theorem C06_partial (db : Db) (i : Node) (gb : List Nat) (aggs : List (Agg × Nat)) (s : List String)
     (hwf : wf db (.aggregate i gb aggs s) = true) (hset : isSetPlan i = true) (hdb : DbSet db) :
@@ -74,8 +68,8 @@ theorem C06_partial (db : Db) (i : Node) (gb : List Nat) (aggs : List (Agg × Na
     (∀ k c, aggVal (groupOf (eval db i) gb k) (.countDistinct, c) =
         .i64 ((dedupVals ((groupOf (eval db i) gb k).filterMap (fun t => t[c]?))).length : Nat)
         ∧ (dedupVals ((groupOf (eval db i) gb k).filterMap (fun t => t[c]?))).Nodup) ∧
-    (∀ k c, (((groupOf (eval db i) gb k).map (colI64 c)).map Int.natAbs).sum < 2^63 →
-        aggVal (groupOf (eval db i) gb k) (.sum, c) = .i64 (((groupOf (eval db i) gb k).map (colI64 c)).foldl (· + ·) 0)) ∧
+    (∀ k c, aggVal (groupOf (eval db i) gb k) (.sum, c) =
+        .i64 (satI64 (((groupOf (eval db i) gb k).map (colI64 c)).foldl (· + ·) 0))) ∧
     (ValuesWF (eval db i) → ∀ k c m, valMin ((groupOf (eval db i) gb k).filterMap (fun t => t[c]?)) = some m →
         aggVal (groupOf (eval db i) gb k) (.min, c) = m ∧
         m ∈ (groupOf (eval db i) gb k).filterMap (fun t => t[c]?) ∧
@@ -95,7 +89,7 @@ theorem C06_partial (db : Db) (i : Node) (gb : List Nat) (aggs : List (Agg × Na
   · simpa [eval] using agg_one_row_per_group (eval db i) gb aggs
   · intro k c; exact agg_count_exact _ gb k c
   · intro k c; exact ⟨rfl, nodup_dedupVals _⟩
-  · intro k c h; exact agg_sum_exact _ c h
+  · intro k c; exact agg_sum_clamped _ c
   · intro hv k c m hm
     have := valMin_spec _ (colWF hv k c) m hm
     exact ⟨by simp [aggVal, hm], this.1, this.2⟩
